@@ -179,6 +179,15 @@ JRaw(r) == IF r.t = "some" THEN [t |-> "some", e |-> JEnt(r.e)] ELSE r
 JRes(r) == IF r.t = "some" THEN [t |-> "some", begin |-> Cv(r.begin), end |-> Cv(r.end), d |-> r.d] ELSE r
 JRun(run, J(_)) == [open |-> run.open, items |-> [i \in DOMAIN run.items |-> J(run.items[i])]]
 
+(* minimal units (root DIE without attributes) of every version / format / file type /   *)
+(* address size / byte order: the harness reads every list case also through the          *)
+(* Dwarf-level and UnitRef-level API (raw_ranges / ranges / raw_locations / locations)    *)
+(* of such a unit, whose results must equal those of the section-level API                *)
+UnitImages ==
+    LET cfs == {[fam |-> "rng", ver |-> v, asz |-> z, fmt |-> f, dwo |-> d, le |-> l] :
+                    v \in 2..5, z \in {1, 2, 4, 8}, f \in {32, 64}, d \in BOOLEAN, l \in BOOLEAN} IN
+    {[cf |-> x, info |-> EncUnit(<<>>, x), abbrev |-> EncAbbrev(<<>>)] : x \in cfs}
+InvL0 == c.stage = 0 => PrintT(<<"CASE", ToJson([sys |-> "unitimages", table |-> UnitImages])>>)
 InvL ==
     c.stage = 1 =>
     LET cf  == FlavCf(c.f, c.fl)
@@ -300,6 +309,15 @@ SlimTab == [k \in DKey |-> AttrSlim(KCf(k))]
 CoreTab == [k \in DKey |-> AttrCore(KCf(k))]
 SlimAt(k, m) == IF m >= DieCoreFrom THEN CoreTab[k] ELSE SlimTab[k]
 ExtTab  == [k \in DKey |-> AttrExtreme(KCf(k))]
+(* raw iteration at the Dwarf level exposes the encoded entries: for every file type, *)
+(* version class and format, the two lists of each section come back unchanged        *)
+ASSUME \A k \in DKey : \A i \in {1, 2} :
+    LET cf == KCf(k)
+        F  == FileTab[k]
+        lc == LocCf(cf)
+        AsRaw(L) == [j \in DOMAIN L |-> [t |-> "some", e |-> L[j]]] IN
+    /\ RawRangesAt(N8(ListOff(cf, "rng", i)), cf, F) = [open |-> TRUE, items |-> AsRaw(RL(cf, i))]
+    /\ RawLocationsAt(N8(ListOff(cf, "loc", i)), cf, F) = [open |-> TRUE, items |-> AsRaw(LLk(lc, i))]
 InitD == c = [stage |-> 0]
 NextD ==
     \/ /\ c.stage = 0
@@ -325,10 +343,14 @@ JDie(d) == CASE d.t = "err" -> d
 ExpAttr(a, cf, F, u) ==
     LET val == AttrValue(a, cf)
         ro  == AttrRangesOffset(val, cf, F, u)
-        lo  == AttrLocationsOffset(val, cf, F, u) IN
+        lo  == AttrLocationsOffset(val, cf, F, u)
+        none == [open |-> FALSE, items |-> <<>>] IN
     [at |-> AtCode[a.at], ro |-> JOpt(ro), lo |-> JOpt(lo),
-     rr |-> IF ro.ok /\ ro.some THEN JRun(RangesAt(ro.v, cf, F, u), JRes) ELSE [open |-> FALSE, items |-> <<>>],
-     lr |-> IF lo.ok /\ lo.some THEN JRun(LocationsAt(lo.v, cf, F, u), JRes) ELSE [open |-> FALSE, items |-> <<>>]]
+     rr |-> IF ro.ok /\ ro.some THEN JRun(RangesAt(ro.v, cf, F, u), JRes) ELSE none,
+     lr |-> IF lo.ok /\ lo.some THEN JRun(LocationsAt(lo.v, cf, F, u), JRes) ELSE none,
+     \* the raw iterators of the Dwarf / UnitRef level at the same offsets
+     rw |-> IF ro.ok /\ ro.some THEN JRun(RawRangesAt(ro.v, cf, F), JRaw) ELSE none,
+     lw |-> IF lo.ok /\ lo.some THEN JRun(RawLocationsAt(lo.v, cf, F), JRaw) ELSE none]
 ExpWith(attrs, cf, F, u) ==
     [unit  |-> [t |-> "ok", low_pc |-> Cv(u.low_pc), addr_base |-> Cv(u.addr_base),
                 rnglists_base |-> Cv(u.rnglists_base), loclists_base |-> Cv(u.loclists_base)],
